@@ -155,7 +155,7 @@ def run(res: C.Result):
     # ---- evaluate the model
     got = {}
     per = 150
-    lines = [f"Eval vm_compute in ({j}%nat, {it})." for j, it in enumerate(items)]
+    lines = [f"Eval vm_compute in ({j}%Z, {it})." for j, it in enumerate(items)]
     files = ["\n".join(lines[i:i + per]) for i in range(0, len(lines), per)]
     from concurrent.futures import ThreadPoolExecutor
 
@@ -169,7 +169,7 @@ def run(res: C.Result):
         for rc, out, err in ex.map(one, enumerate(files)):
             if rc != 0:
                 res.broken("correspondence:coq-evaluation", err[-1500:])
-            for m in re.finditer(r"=\s*\((\d+)%nat,\s*(.*?)\)\s*:\s", out, re.S):
+            for m in re.finditer(r"=\s*\((\d+)(?:%\w+)?,\s*(.*?)\)\s*:\s", out, re.S):
                 got[int(m.group(1))] = re.sub(r"\s+", " ", m.group(2))
     agree = dis = 0
     known_sigs = {kf["signature"] for kf in C.load_known() if kf["property"] == "C03" and kf["status"] == "open"}
